@@ -646,16 +646,20 @@ def rule_R7(res, prog):
             for bid in blocks:
                 loop |= cyc[bid] & set(k for k in cyc if bid in cyc[k])
             # the loop is bounded by data, not by a constant test of the counter itself
-            const_bound = False
+            const_bound = None
+            data_loop = False
             for bid in loop:
                 t = fn.bmap[bid].get("term")
                 if t is not None and "c" in t:
                     for nd in walk(t["c"]):
                         if nd.get("k") == "bin" and nd["op"] in ("<", "<=", ">", ">=", "!=") and \
                                 (strip(nd["l"]) or {}).get("id") == vid and (strip(nd["r"]) or {}).get("k") == "int":
-                            const_bound = True
-            if const_bound:
-                continue
+                            const_bound = strip(nd["r"])["v"]
+                        # the loop also tests a byte read through a pointer (*p == 0): a scan over record bytes
+                        if nd.get("k") == "un" and nd["op"] == "*" and "char" in (nd.get("t") or ""):
+                            data_loop = True
+            if const_bound is not None and not data_loop:
+                continue        # an ordinary counted loop (for (i = 0; i < K; i++)), not a scan over record bytes
             # used outside the loop in arithmetic on a length / pointer
             used = None
             for b in fn.blocks:
@@ -671,7 +675,14 @@ def rule_R7(res, prog):
             n += 1
             ok = (v.get("t") or "") not in NARROW
             f_ = None
-            if not ok:
+            if ok and const_bound is not None and const_bound < 16384:
+                ok = False
+                f_ = Finding(PROP, rid, fn.name, "scan over record bytes capped at %d" % const_bound,
+                             "%s:%s %s(): the loop that counts %s over record bytes also stops when the count reaches %d, less than the "
+                             "largest plaintext (2^14): for a longer run the scan ends inside it, the byte taken for the content type / the "
+                             "length cut from the plaintext are wrong and authentic data is dropped or mis-delivered without an alert" % (
+                                 fn.relfile, ln, fn.name, v["n"], const_bound), file=fn.relfile, line=ln)
+            elif not ok:
                 f_ = Finding(PROP, rid, fn.name, "%s counts record bytes in a %s" % (v["n"], v.get("t")),
                              "%s:%s %s(): %s (type %s) is incremented once per record byte in the loop at line %s and then used in "
                              "`%s` (line %s): the count wraps at 256, so a record padded with 256 or more bytes is delivered with "
